@@ -121,7 +121,7 @@ def run_batch(scens, wd, mode="", known="", par=8, chunk=None):
         chunk = max(1, (len(scens) + par - 1) // par)
     chunks = [scens[i:i + chunk] for i in range(0, len(scens), chunk)]
     results = {}
-    stats = dict(states=0, distinct=0, crash_images=0)
+    stats = dict(states=0, distinct=0, crash_images=0, synced_crash_images=0)
 
     def one(i):
         tag = f"c{i}"
@@ -155,6 +155,8 @@ def run_batch(scens, wd, mode="", known="", par=8, chunk=None):
                 raise ToolError(f"{r[1]}: {r[3]} {json.dumps(r[4:])[:300]}")
             elif r[0] == "CRASHIMAGES":
                 stats["crash_images"] += r[1]
+            elif r[0] == "SYNCEDCRASH":
+                stats["synced_crash_images"] = stats.get("synced_crash_images", 0) + r[1]
         # unexplained lines
         for sc in chunks[i]:
             res = results[sc["name"]]
